@@ -541,7 +541,12 @@ class OperationTexts(Stream):
 
     def gen(self, rng, n):
         for i in range(n):
-            kind = ["window", "toneless", "custom_figure"][i % 3]
+            kind = ["window", "toneless", "custom_figure", "window", "toneless", "custom_figure", "empty_part"][i % 7]
+            if kind == "empty_part":
+                # a part emptied by slicing past its end (melody[k:]): not written in the text form, but deep copies and pickles of the
+                # chord and of its score are equal objects
+                yield {"kind": kind, "elem": rng.randrange(7), "melody": [dict(rand_note(rng, families=["s", "h", "r", "l", "c"]), tags=[]) for _ in range(rng.randrange(1, 4))]}
+                continue
             if kind == "window":
                 sc = sg.equalize(sg.rand_score(rng, max_chords=3, rel=0, accs=False, rest=0.1, cont=0.1))
                 for c in sc:
@@ -570,6 +575,12 @@ class OperationTexts(Stream):
                     return {"none": True}
             elif case["kind"] == "toneless":
                 x = Chord(case["elem"], extension=case["fig"], octave=case["coct"])(piano__0=Melody([mk_note(n) for n in case["melody"]])).to_score()
+            elif case["kind"] == "empty_part":
+                import copy as _copy, pickle as _pickle
+                mel = Melody([mk_note(n) for n in case["melody"]])
+                x = Chord(case["elem"], tonality=Tonality(0))(piano__0=mel, violin__0=mel[len(mel.notes):]).to_score()
+                objs = [x, x.chords[0], x.chords[0].score["violin__0"]]
+                return {"copies": [[bool(_copy.deepcopy(o) == o), bool(_pickle.loads(_pickle.dumps(o)) == o), bool(o.copy() == o)] for o in objs]}
             else:
                 notes = [Note(k, v, o, 1) for k, v, o in case["notes"]]
                 x = Tonality(case["tdeg"], case["tmode"], 0)(*notes)[case["fig"]].o(case["coct"])(piano__0=Melody([mk_note(n) for n in case["melody"]])).to_score()
@@ -589,6 +600,10 @@ class OperationTexts(Stream):
         if mlang.is_exc(r):
             return {"sig": f"operation-text-raises:{case['kind']}", "msg": str(r)}
         if r.get("none"):
+            return None
+        if "copies" in r:
+            if not all(all(c) for c in r["copies"]):
+                return {"sig": "copy-of-object-with-empty-part", "msg": f"[deepcopy, pickle, copy] equal to the original, for the score, its chord and the empty part: {r['copies']}"}
             return None
         if not (r["eq"] and r["same"]):
             return {"sig": f"operation-text-roundtrip:{case['kind']}", "msg": r["text"]}
